@@ -279,7 +279,7 @@ def _areas_exhaustive(ctx, rep, T, Pos, coordsys, depth):
             rep("rt/toast_tile_area/total", {"coordsys": coordsys, "route": "generate_tiles", "n": n, "x": 0, "y": 0, "total": tot},
                 "areas of the %d tiles of level %d sum to %.15g, not 4 pi" % (A.size, n, tot))
         q, _inc = _lattice_quads(coordsys, n)
-        ref = S.quad_area(q)
+        ref = S.quad_area(q, _inc)
         bad = ~(np.abs(A - ref) <= 1e-9 * ref + 1e-13)
         for (x, y) in np.argwhere(bad)[:CAP]:
             rep("rt/toast_tile_area/value", {"coordsys": coordsys, "route": "generate_tiles", "n": n, "x": int(x), "y": int(y),
@@ -464,7 +464,7 @@ def _deep_single_case(ctx, rep, T, Pos, coordsys, n, x, y):
     if t is None:
         return False
     q, _inc = S.tile_quad(coordsys, n, x, y)
-    ref = float(S.quad_area(q))
+    ref = float(S.quad_area(q, _inc))
     good = True
     try:
         a = float(T.toast_tile_area(t))
@@ -532,15 +532,9 @@ def run(ctx):
                 vecs[n] = _compare_level(ctx, rep, coordsys, "generate_tiles", n, corners, incs, count,
                                          {"depth": d_enum, "bottom_only": False})
                 m = 1 << n
-                if n <= 7:
-                    for x in range(m):
-                        for y in range(m):
-                            ctx.case((coordsys, "generate_tiles", n, x, y))
-                else:
-                    for x in range(m):
-                        ctx.case((coordsys, "generate_tiles-column", n, x))
-                        ctx.evaluations += m - 1
-                        ctx._distinct.update(((coordsys, "g", n, x, y) for y in range(1, m)))
+                for x in range(m):
+                    for y in range(m):
+                        ctx.case((coordsys, "g", n, x, y))
                 _shared_corners(rep, coordsys, n, vecs[n])
                 if n - 1 in vecs:
                     _nesting(rep, coordsys, n - 1, vecs[n - 1], arr[n - 1][1], vecs[n])
@@ -638,8 +632,6 @@ def replay(obligation, witness):
     class _Ctx(object):
         def __init__(self):
             self.violations = []
-            self.evaluations = 0
-            self._distinct = set()
 
         def case(self, *a, **k):
             pass
